@@ -195,7 +195,8 @@ def run_job(job):
             if v == 0:
                 prior, mode, mmap = "absent", None, None
             elif v == 1:
-                prior, mode, mmap = "ff-longer", "--update-in-place", None
+                prior, mode = "ff-longer", "--update-in-place"
+                mmap = "--no-mmap-output-file" if index % 2 else None
             elif v == 2:
                 prior, mode = "aa-exact", "--update-in-place"
             # Forced fallback paths through the system-call fault seam: the output cannot be mapped
@@ -204,6 +205,8 @@ def run_job(job):
             sysfault = None
             if v == 3:
                 sysfault, mmap = "mmaprw#1=ENODEV", None
+                if index % 2 == 0:
+                    prior, mode = "ff-longer", "--update-in-place"
             elif v == 4:
                 sysfault, mmap = f"mmaprw#1=ENOMEM;write#1=short:{1 + prior_bytes_seed % 5000}", None
             if only is not None and v not in only:
